@@ -47,8 +47,10 @@ Proof.
   pose proof (trunc_lt w). pose proof (trunc_lt w').
   change (2 ^ 64)%N with 18446744073709551616%N in *.
   destruct (N.compare_spec (glue t) (glue t')) as [E|L|L].
-  - rewrite E. destruct (N.compare_spec (trunc w) (trunc w')); [subst; apply N.compare_refl| |];
-      [apply N.compare_lt_iff|apply N.compare_gt_iff]; lia.
+  - rewrite E. destruct (N.compare_spec (trunc w) (trunc w')) as [E2|L2|L2].
+    + rewrite E2. apply N.compare_refl.
+    + apply N.compare_lt_iff. lia.
+    + apply N.compare_gt_iff. lia.
   - apply N.compare_lt_iff. lia.
   - apply N.compare_gt_iff. lia.
 Qed.
@@ -107,6 +109,39 @@ Proof.
   destruct (N.compare (f a) (g a)); cbn [copt opt_default]; auto.
 Qed.
 
+Lemma mword_low h mem i n : mem_ok mem -> h_width h = S n ->
+  map trunc (map (mword h mem i) (seq 0 n)) = map (fun j => word_at mem (row_addr h i + j)) (seq 0 n).
+Proof.
+  intros Hm HW. rewrite map_map. apply map_ext_in. intros k Hk. rewrite in_seq in Hk. unfold mword.
+  rewrite HW. destruct (Nat.eqb_spec k (S n - 1)); [lia|]. apply trunc_id. now apply mem_ok_word.
+Qed.
+
+Lemma mword_top h mem i n : mem_ok mem -> h_width h = S n ->
+  trunc (mword h mem i n) = N.land (word_at mem (row_addr h i + n)) (h_hmask h).
+Proof.
+  intros Hm HW. unfold mword. rewrite HW. replace (S n - 1) with n by lia. rewrite Nat.eqb_refl.
+  apply trunc_id, land_word_lt. now apply mem_ok_word.
+Qed.
+
+Lemma row_compare hA hB mem i n : hdr_ok hA -> hdr_ok hB -> mem_ok mem -> 0 < h_ncols hA ->
+  h_ncols hA = h_ncols hB -> h_width hA = S n ->
+  N.compare (rowval hA mem i) (rowval hB mem i) =
+  match N.compare (N.land (word_at mem (row_addr hA i + n)) (h_hmask hA))
+                  (N.land (word_at mem (row_addr hB i + n)) (h_hmask hA)) with
+  | Eq => lc (map (fun j => word_at mem (row_addr hA i + j)) (seq 0 n))
+             (map (fun j => word_at mem (row_addr hB i + j)) (seq 0 n))
+  | c => c end.
+Proof.
+  intros HokA HokB Hm Hc0 Ec HW. destruct (same_ncols_width hA hB HokA HokB Ec) as [EW EM].
+  rewrite (rowval_glue hA mem i HokA Hm Hc0), (rowval_glue hB mem i HokB Hm ltac:(lia)).
+  rewrite compare_glue by now rewrite !map_length, !seq_length, EW.
+  rewrite <- EW, HW. rewrite seq_S, !map_app. cbn [map Nat.add].
+  rewrite lc_snoc by now rewrite !map_length.
+  rewrite (mword_top hA mem i n Hm HW), (mword_top hB mem i n Hm ltac:(congruence)).
+  rewrite (mword_low hA mem i n Hm HW), (mword_low hB mem i n Hm ltac:(congruence)).
+  now rewrite <- EM.
+Qed.
+
 Theorem w_cmp_ok hA hB mem : valid hA mem -> valid hB mem -> 0 < h_ncols hA ->
   w_cmp hA hB mem = Ok (mcmp (abs hA mem) (abs hB mem)).
 Proof.
@@ -124,31 +159,19 @@ Proof.
       destruct (Nat.ltb_spec (h_ncols hB) (h_ncols hA)); [reflexivity|lia]. }
   rewrite Ec, !Nat.ltb_irrefl.
   destruct (same_ncols_width hA hB HokA HokB Ec) as [EW EM].
-  destruct (Nat.eqb_spec (h_width hA) 0); [lia|]. cbn [andb].
+  destruct (Nat.eqb_spec (h_width hA) 0) as [|_]; [lia|]. cbn [andb].
   rewrite (firstM_total _ (fun i => copt (N.compare (rowval hA mem i) (rowval hB mem i)))).
   - cbn [bind]. f_equal. unfold abs. cbn [rows]. rewrite <- Er. now rewrite list_cmp_map_seq.
   - intros i Hi. rewrite in_seq in Hi. set (n := h_width hA - 1).
     pose proof (valid_word hA mem i n HvA ltac:(lia) ltac:(lia)).
     pose proof (valid_word hB mem i n HvB ltac:(lia) ltac:(lia)).
     rewrite !rd_ok by lia. cbn [bind].
-    rewrite (rowval_glue hA mem i HokA Hm Hc0), (rowval_glue hB mem i HokB Hm ltac:(lia)).
-    rewrite compare_glue by now rewrite !map_length, !seq_length, EW.
-    rewrite <- EW. replace (h_width hA) with (S n) by lia.
-    rewrite seq_S, !map_app. cbn [map Nat.add]. rewrite lc_snoc by now rewrite !map_length.
-    unfold mword at 2 4. rewrite <- EW, <- EM. replace (S n - 1) with n by lia. rewrite Nat.eqb_refl.
-    rewrite !trunc_id by (apply land_word_lt; now apply mem_ok_word).
+    rewrite (row_compare hA hB mem i n) by (auto; lia).
     set (xa := N.land (word_at mem (row_addr hA i + n)) (h_hmask hA)).
     set (xb := N.land (word_at mem (row_addr hB i + n)) (h_hmask hA)).
-    pose proof (ltb_compare_opt xa xb) as LC.
     destruct (N.compare_spec xa xb) as [E|L|L].
     + destruct (N.ltb_spec xa xb); [lia|]. destruct (N.ltb_spec xb xa); [lia|].
-      rewrite cmp_low_loop by lia. f_equal. f_equal. f_equal.
-      * rewrite !map_map. apply map_ext_in. intros k Hk. rewrite in_seq in Hk. unfold mword.
-        replace (S n - 1) with n by lia. destruct (Nat.eqb_spec k n); [lia|].
-        symmetry. apply trunc_id. now apply mem_ok_word.
-      * rewrite !map_map. apply map_ext_in. intros k Hk. rewrite in_seq in Hk. unfold mword.
-        rewrite <- EW. replace (S n - 1) with n by lia. destruct (Nat.eqb_spec k n); [lia|].
-        symmetry. apply trunc_id. now apply mem_ok_word.
+      rewrite cmp_low_loop by lia. reflexivity.
     + apply N.ltb_lt in L. now rewrite L.
     + destruct (N.ltb_spec xa xb); [lia|]. apply N.ltb_lt in L. now rewrite L.
 Qed.
